@@ -4,7 +4,7 @@ package polyjson
 
 // C15: JSON is a lossless interchange form for annotated sequences.
 //
-// verif:bound C15 structured sequences: every string field of Meta / Locus / Reference / Feature one symbolic printable byte (metadata) or 1..2 bytes, the sequence 5 symbolic letters, Locus flags and region bounds symbolic, feature coordinates from three spans; 0..1 (quick) / 0..2 (thorough) references, Other map absent / empty / one entry, 0..1 (quick) / 0..2 (thorough) features each with a location tree of depth <= 2 (quick) / 3 (thorough) with symbolic partial flags, attribute map absent / empty / one entry
+// verif:bound C15 structured sequences: every string field of Meta / Locus / Reference / Feature one symbolic printable byte (metadata) or 1..2 bytes, the sequence 5 symbolic letters, Locus flags and region bounds symbolic, feature coordinates from six spans (whole, interior, zero-width inside / at either end, last base); 0..1 (quick) / 0..2 (thorough) references, Other map absent / empty / one entry, 0..1 (quick) / 0..2 (thorough) features each with a location tree of depth <= 2 (quick) / 3 (thorough) with symbolic partial flags, attribute map absent / empty / one entry
 // verif:assume C15 encoding/json is replaced by a contract model that walks the REAL struct types and tags of /repo's current source (exported fields, json:"name", json:"-", omitempty, duplicate names dropped, case-insensitive decode, nil <-> null); the JSON text layer (syntax, escaping, non-ASCII) is not modelled
 // verif:bound C15 outside the claim: JSON text syntax and escaping, non-ASCII text, temp files (Read/Write), and the sentence 'GenBank or GFF -> JSON -> original format gives the same text' (it needs a deterministic writer, see C03)
 
@@ -35,7 +35,7 @@ func c15Loc(depth int, L int) poly.Location {
 		}
 		return l
 	}
-	se := [][2]int{{0, L}, {1, 3}, {2, 2}}[vChoice(3)]
+	se := [][2]int{{0, L}, {1, 3}, {2, 2}, {L, L}, {0, 0}, {L - 1, L}}[vChoice(6)]
 	l.Start, l.End = se[0], se[1]
 	l.Complement = vBool()
 	l.FivePrimePartial = vBool()
